@@ -12,6 +12,7 @@ import (
 	"time"
 
 	"verif/engine/interp"
+	"verif/engine/sym"
 )
 
 type checkCtx struct {
@@ -288,7 +289,8 @@ func cmdCheck(args []string) {
 	}
 	cov := map[string]interface{}{
 		"states":                        total.Paths,
-		"transitions":                   total.Branches + total.DecidedNoSolve,
+		"transitions":                   total.Branches + total.DecidedNoSolve + total.Choices,
+		"case_split_decisions":          total.Choices,
 		"traces_validated_against_impl": validated,
 		"samples":                       sampleOut,
 		"units":                         len(units),
@@ -407,4 +409,75 @@ func cmdReplay(args []string) {
 	fmt.Println("not reproduced on the current tree")
 }
 
-func cmdSelftest(args []string) { fmt.Println("selftest: ok (placeholder)") }
+// cmdSelftest validates the translator: solver round trips, intrinsics and the
+// interpreter against the native build, the vacuity twin, and a cross-check of the
+// three solvers on one unit.
+func cmdSelftest(args []string) {
+	fs := flag.NewFlagSet("selftest", flag.ExitOnError)
+	cross := fs.Bool("cross", true, "cross-check z3 / z3-new / cvc5")
+	fs.Parse(args)
+	t0 := time.Now()
+	known := loadKnown()
+	p := loadProgram(known)
+	fail := func(f string, a ...interface{}) {
+		fmt.Printf("selftest FAILED: "+f+"\n", a...)
+		os.Exit(3)
+	}
+	val, lex := groups["values"], groups["lexer"]
+	mk := func(g *group, entry string, ps map[string]interface{}, samples int) *interp.Unit {
+		u := unit(g, entry, entry, ps)
+		u.Samples = samples
+		return u
+	}
+	units := []*interp.Unit{
+		mk(val, "H_intrinsics", map[string]interface{}{"L": 3}, 400),
+		mk(lex, "H_lex_total", map[string]interface{}{"Ls": 2}, 60),
+		mk(val, "H_twin_false", map[string]interface{}{}, 0),
+	}
+	res, st := interp.RunUnits(p, units, interp.Options{Workers: runtime.NumCPU(), Solver: "z3", TimeoutMs: 20000, MaxFail: 1})
+	if st.Unknown > 0 || len(st.Errors) > 0 {
+		fail("solver unknown/errors: %v", st.Errors)
+	}
+	scratch, _ := os.MkdirTemp("/var/tmp", "mowcheck-")
+	defer os.RemoveAll(scratch)
+	for i, r := range res[:2] {
+		if len(r.Failures) > 0 || r.Stats.Unsupported > 0 || r.Stats.Inconclusive > 0 {
+			os.RemoveAll(scratch)
+			fail("%s: failures=%d unsupported=%v", units[i].Name, len(r.Failures), r.Stats.UnsupportedWhy)
+		}
+		bin, err := nativeBuild(groups[units[i].Harness], scratch)
+		if err != nil {
+			os.RemoveAll(scratch)
+			fail("%v", err)
+		}
+		var cases []nativeCase
+		for _, s := range r.Samples {
+			cases = append(cases, nativeCase{Unit: s.Unit, Entry: s.Entry, Params: s.Params, Nondets: s.Nondets})
+		}
+		nr := nativeRun(bin, scratch, cases, 30*time.Second)
+		for k, x := range nr {
+			if !x.Done || strings.Join(x.Obs, ";") != strings.Join(r.Samples[k].Obs, ";") {
+				os.RemoveAll(scratch)
+				fail("%s: engine and native disagree on %s: engine %v native %v (diverged=%q panicked=%q)", units[i].Name, renderNondets(r.Samples[k].Nondets), r.Samples[k].Obs, x.Obs, x.Diverged, x.Panicked)
+			}
+		}
+		fmt.Printf("selftest: %s: %d paths, %d sampled paths agree with the native build\n", units[i].Name, r.Stats.Paths, len(cases))
+	}
+	if len(res[2].Failures) == 0 || res[2].Stats.Covers["reached"] == 0 {
+		os.RemoveAll(scratch)
+		fail("vacuity twin: the deliberately false assertion was not refuted")
+	}
+	fmt.Println("selftest: vacuity twin refuted as expected")
+	if *cross {
+		base := res[1].Stats
+		for _, sv := range []string{"z3-new", "cvc5"} {
+			r2, st2 := interp.RunUnits(p, []*interp.Unit{mk(lex, "H_lex_total", map[string]interface{}{"Ls": 2}, 0)}, interp.Options{Workers: 4, Solver: sv, TimeoutMs: 20000, MaxFail: 1})
+			if st2.Unknown > 0 || r2[0].Stats.Paths != base.Paths || r2[0].Stats.Forks != base.Forks || len(r2[0].Failures) != 0 {
+				os.RemoveAll(scratch)
+				fail("solver %s disagrees with z3: paths %d vs %d, forks %d vs %d, unknown %d, errors %v", sv, r2[0].Stats.Paths, base.Paths, r2[0].Stats.Forks, base.Forks, st2.Unknown, st2.Errors)
+			}
+			fmt.Printf("selftest: %s agrees with z3 on H_lex_total[Ls<=2] (%d paths, %d forks, %d queries)\n", sv, r2[0].Stats.Paths, r2[0].Stats.Forks, st2.Queries)
+		}
+	}
+	fmt.Printf("selftest: ok (libz3 %s, %.1fs)\n", sym.Z3Version(), time.Since(t0).Seconds())
+}
